@@ -244,8 +244,10 @@ pub fn item_features(tokens: &str) -> Vec<&'static str> {
                 f.push("set-with-constrained-field");
             }
         }
-        if body.matches("extension_addition_group").count() >= 2 && !head_args.contains(&"automatic_tags") {
-            f.push("several-extension-groups-without-automatic-tags");
+        // rasn models every `[[ ]]` group as one SEQUENCE-typed optional field: without automatic tagging it collides with
+        // a second group or with any other untagged SEQUENCE / SEQUENCE OF typed component
+        if body.contains("extension_addition_group") && !head_args.contains(&"automatic_tags") {
+            f.push("extension-group-without-automatic-tags");
         }
     } else {
         let words: Vec<&str> = tokens.split(|c: char| !(c.is_alphanumeric() || c == '_')).filter(|w| !w.is_empty()).collect();
@@ -264,7 +266,10 @@ pub fn item_features(tokens: &str) -> Vec<&'static str> {
             // a reference to another generated value (consts are upper-cased value names) used as (part of) the value
             let own = words.iter().position(|w| *w == "static" || *w == "const" || *w == "fn").and_then(|p| words.get(p + 1).or(words.get(p))).copied().unwrap_or("");
             let own = if own == "ref" { words.iter().skip_while(|w| **w != "ref").nth(1).copied().unwrap_or("") } else { own };
-            if words.iter().any(|w| *w != own && w.len() > 2 && w.starts_with("VQ") && w[2..].chars().all(|c| c.is_ascii_digit())) {
+            // generated values are named in upper snake case: any such identifier other than the item's own name is a
+            // reference to another value
+            let is_const_name = |w: &str| w.len() > 1 && w.chars().any(|c| c.is_ascii_uppercase()) && w.chars().all(|c| c.is_ascii_uppercase() || c.is_ascii_digit() || c == '_') && !matches!(w, "ENUMERATED" | "INTEGER" | "CHOICE" | "SEQUENCE" | "SET" | "BOOLEAN" | "NULL" | "BIT_STRING" | "OCTET_STRING" | "SEQUENCE_OF" | "SET_OF") && !(w.starts_with("EQ") && w[2..].chars().all(|c| c.is_ascii_digit()));
+            if words.iter().any(|w| *w != own && is_const_name(w)) {
                 f.push("value-reference-inside-value");
             }
             // an enumeral of an inline ENUMERATED type spelled as a free-standing constant
@@ -386,8 +391,10 @@ fn cfg_for(i: u64) -> Cfg {
         1 => vec!["core::fmt::Write".into()],
         _ => vec!["core::fmt::Write".into(), "alloc::collections::BTreeMap".into()],
     };
-    let ann = match (i / 48) % 3 {
+    let ann = match (i / 48) % 4 {
         0 => None,
+        // the same non-required derives named on two lines: they must be emitted once (else E0119)
+        3 => Some(vec!["#[derive(AsnType, Debug, Clone, Decode, Encode, PartialEq, Eq, Hash)]".to_string(), "#[derive(Eq, Hash)]".to_string()]),
         // custom annotations replace the default derive list, so they must keep what the bindings rely on (rasn's
         // derives + the comparison/hash traits SetOf and DEFAULT handling need); extra traits the rasn types do not all
         // implement (PartialOrd on SetOf) would be the configuration's fault, not the compiler's
